@@ -126,6 +126,9 @@ type c05x struct {
 	fee      common.Fixed64 // RealWithdrawSingleFee
 	fatal    bool
 	sampled  int
+	// (type, payload version) pairs checkTransactionSignature exempts although the workload does not know them (c05_probe.go)
+	newExempt   []c05xFlag
+	sigOverride string
 }
 
 func runC05Exempt(c *kit.Ctx) {
@@ -199,7 +202,8 @@ var (
 func (x *c05x) enumerate(victim node.UTXORef) {
 	c := x.c
 	h := x.nd.Height() + 1
-	var exempt, refuses, candidates []string
+	var exempt, refuses, candidates, unknown []string
+	x.newExempt = nil
 	for t := 0; t < 256; t++ {
 		tt := common2.TxType(t)
 		if _, err := transaction.GetTransaction(tt); err != nil {
@@ -209,7 +213,7 @@ func (x *c05x) enumerate(victim node.UTXORef) {
 		name := tt.Name()
 		in := &common2.Input{Previous: common2.OutPoint{TxID: victim.TxID, Index: victim.Index}, Sequence: math.MaxUint32}
 		refs := map[*common2.Input]common2.Output{in: {Value: victim.Value, ProgramHash: victim.Owner.ProgramHash}}
-		sigExempt := false
+		sigExempt, newly := false, false
 		for ver := byte(0); ver < 4; ver++ {
 			pl, err := interfaces.GetPayload(tt, ver)
 			if err != nil {
@@ -225,11 +229,14 @@ func (x *c05x) enumerate(victim node.UTXORef) {
 				if tt == common2.CRCProposalWithdraw {
 					k = fmt.Sprintf("%s/v%d", name, ver)
 				}
-				if len(exempt) == 0 || exempt[len(exempt)-1] != k {
+				if !c05xSigExemptKnown[k] {
+					// not an exemption the scripts were written for: the probes of c05_probe.go decide (c05xPost: inconclusive only if none could be built)
+					newly = true
+					x.newExempt = append(x.newExempt, c05xFlag{tt, ver})
+					c.Inc("X_newly_exempt_found:" + c05xKey(tt, ver))
+					unknown = append(unknown, c05xKey(tt, ver))
+				} else if len(exempt) == 0 || exempt[len(exempt)-1] != k {
 					exempt = append(exempt, k)
-					if !c05xSigExemptKnown[k] {
-						c.Inconclusive("X enumerate: checkTransactionSignature exempts %s, which this workload does not know", k)
-					}
 				}
 			}
 		}
@@ -250,7 +257,7 @@ func (x *c05x) enumerate(victim node.UTXORef) {
 		if sigExempt || c05xEndTrue[tt] {
 			candidates = append(candidates, name)
 			c.Inc("X_enum_candidates")
-			if !c05xCandidatesKnown[name] {
+			if !c05xCandidatesKnown[name] && !newly {
 				c.Inconclusive("X enumerate: %s accepts inputs and can skip the signature step, but no script drives it", name)
 			}
 		}
@@ -270,7 +277,7 @@ func (x *c05x) enumerate(victim node.UTXORef) {
 		}
 	}
 	if c.Shard == c05BaseShards {
-		c.Sample(map[string]interface{}{"part": "X-enumeration", "height": h, "checkTransactionSignature_returns_nil_without_program": exempt,
+		c.Sample(map[string]interface{}{"part": "X-enumeration", "height": h, "checkTransactionSignature_returns_nil_without_program": exempt, "newly_exempt": unknown,
 			"CheckTransactionInput_refuses_a_utxo_reference": refuses, "candidates_accept_inputs_and_may_skip_signature_step": candidates})
 	}
 }
@@ -441,7 +448,11 @@ func (x *c05x) judge(T, where, variant string, tx interfaces.Transaction, l *nod
 	for _, o := range tx.Outputs() {
 		outs = append(outs, map[string]interface{}{"to": c05xAddr(o.ProgramHash), "value": int64(o.Value)})
 	}
-	x.c.Violate("unsigned-spend:"+T+":"+where,
+	sig := "unsigned-spend:" + T + ":" + where
+	if x.sigOverride != "" {
+		sig = x.sigOverride
+	}
+	x.c.Violate(sig,
 		fmt.Sprintf("height %d: the %s accepted a %s transaction (variant %s, %d programs) that spends outputs of an ordinary address without any valid witness of the owner (%s)",
 			x.nd.Height(), where, T, variant, len(tx.Programs()), failing),
 		map[string]interface{}{"type": T, "variant": variant, "where": where, "spent": spent, "outputs": outs, "programs": len(tx.Programs()), "tx": c05xTxHex(tx)})
@@ -743,6 +754,7 @@ func (x *c05x) scriptV2() {
 		return
 	}
 	x.enumerate(x.pickVictimsKeep())
+	x.probesAny()
 	nR := x.c.N(3, 5)
 	stake := *x.nd.Cfg.StakePoolProgramHash
 	reward := *x.nd.Cfg.DPoSConfiguration.DPoSV2RewardAccumulateProgramHash
@@ -790,6 +802,7 @@ func (x *c05x) scriptV2() {
 		x.hostileRound("DposV2ClaimRewardRealWithdraw", common2.DposV2ClaimRewardRealWithdraw, own, x.realWithdrawVariants(own, n, reward, false, vs),
 			map[common.Uint168]string{reward: "DPoS v2 reward accumulate address (DPoSV2RewardAccumulateProgramHash): CreateDposV2RealWithdrawTransaction pays reward claims from it"}, vs, i > 0, i == nR-1)
 	}
+	x.probesStake()
 }
 
 // pickVictimsKeep returns one victim output without reserving it.
@@ -869,6 +882,8 @@ func (x *c05x) scriptCR() {
 	if x.fatal {
 		return
 	}
+	x.probesAny()
+	x.probesProducer()
 	for _, cr := range b.CRs {
 		if nd.Committee.GetMember(node.DIDOf(cr)) != nil {
 			b.Members = append(b.Members, cr)
@@ -883,7 +898,7 @@ func (x *c05x) scriptCR() {
 	budgets := []payload.Budget{{Type: payload.Imprest, Stage: 0, Amount: node.ELA(3) + common.Fixed64(x.r.Intn(100000000))}, {Type: payload.FinalPayment, Stage: 1, Amount: node.ELA(2)}}
 	var props []interfaces.Transaction
 	var hashes []common.Uint256
-	for i := 0; i < 3; i++ {
+	for i := 0; i < 4; i++ { // 0: v0 withdraw, 1-2: v1 payout rounds, 3: withdraw probe (c05_probe.go)
 		p := node.CRCProposalNormal(x.take(owner, node.ELA(1)), owner, b.Members[i%len(b.Members)], []byte(fmt.Sprintf("c05x-draft-%d-%d", i, x.c.Shard)), budgets, owner.ProgramHash, payload.CRCProposalVersion)
 		props = append(props, p)
 		hashes = append(hashes, node.ProposalHash(p))
@@ -891,6 +906,7 @@ func (x *c05x) scriptCR() {
 	if !x.submitMine("CRCProposal", props...) {
 		return
 	}
+	x.probesProposal(owner, b.Members[0])
 	txs = nil
 	for _, m := range b.Members {
 		for _, ph := range hashes {
@@ -952,7 +968,8 @@ func (x *c05x) scriptCR() {
 	if x.fatal {
 		return
 	}
-	hashes = hashes[1:]
+	probeHash := hashes[3]
+	hashes = hashes[1:3]
 	if !x.mineTo(nd.Cfg.CRConfiguration.CRCProposalWithdrawPayloadV1Height) {
 		return
 	}
@@ -985,6 +1002,7 @@ func (x *c05x) scriptCR() {
 			return
 		}
 	}
+	x.probesWithdraw(owner, probeHash)
 }
 
 // withdrawV0Round: the legacy CRCProposalWithdraw (payload v0) spends CR
@@ -1101,6 +1119,7 @@ func (x *c05x) scriptActivate() {
 		return
 	}
 	x.enumerate(x.pickVictimsKeep())
+	x.probesAny()
 	T := "ActivateProducer"
 	c := x.c
 	// ---- positive control: the zero-cost honest form (cmd/wallet CreateActivateProducerTransaction) for member A ----
@@ -1183,6 +1202,7 @@ func (x *c05x) scriptRevert() {
 		return
 	}
 	x.enumerate(x.pickVictimsKeep())
+	x.probesAny()
 	x.updateVersionCases()
 	for cycle := 0; cycle < 2 && !x.fatal; cycle++ {
 		if nd.InPOWMode() {
